@@ -154,11 +154,14 @@ def impl(case):
                 f.write("R\t1\t5\t9\tREP1\n")
             for h in case["haps"]:
                 f.write(vlines(h))
+    C.end_file(case, "h.hap", d / "h.hap")
     want = None
     if case["samples"]:
         rnd = random.Random(case["seed"])
         want = set(rnd.sample(samples, rnd.randint(2, ns)))
     out = d / ("out.ld" if case["from_gts"] else "out.hap")
+    if C.plumb(case, "stale-out", 3) == 0:
+        C.stale_output(out)
     hapfile = d / "h.hap"
     if case.get("indexed"):
         # the same haplotypes as a sorted, bgzipped and tabix-indexed file (haptools' own `index`, C11)
@@ -166,7 +169,24 @@ def impl(case):
 
         index_haps(d / "h.hap", sort=case["indexed"] != "concat", output=d / "hs.hap.gz", log=SD.silent_log())
         hapfile = d / "hs.hap.gz"
-    calc_ld(case["target"], gf, hapfile, samples=want, ids=None if case["ids"] is None else tuple(case["ids"]), from_gts=case["from_gts"], output=out, log=SD.silent_log())
+    if want and C.plumb(case, "route", 3) == 0:
+        # the same request through the command line, the samples in a file (in file order of the user's choosing; half of these
+        # files end without a final newline)
+        from click.testing import CliRunner
+        from haptools.__main__ import main
+
+        lst = sorted(want, reverse=True)
+        open(d / "keep.txt", "w").write("\n".join(lst) + ("" if C.plumb(case, "list-ending", 2) == 0 else "\n"))
+        args = ["ld", "-S", str(d / "keep.txt"), "-o", str(out)] + (["--from-gts"] if case["from_gts"] else [])
+        for i in case["ids"] or []:
+            args += ["--id", i]
+        r = CliRunner().invoke(main, args + [case["target"], str(gf), str(hapfile)], catch_exceptions=True)
+        if r.exit_code != 0:
+            if r.exception is not None and not isinstance(r.exception, SystemExit):
+                raise r.exception
+            raise ValueError(f"haptools ld exited with status {r.exit_code}: {r.output[-200:]}")
+    else:
+        calc_ld(case["target"], gf, hapfile, samples=want, ids=None if case["ids"] is None else tuple(case["ids"]), from_gts=case["from_gts"], output=out, log=SD.silent_log())
     rows = []
     if case["from_gts"]:
         lines = open(out).read().splitlines()
